@@ -116,6 +116,14 @@ var c20PairKinds = []struct{ Name, SQLa, SQLb, TypesB string }{
 	{"func_types", "SELECT id, upper(s) AS us, abs(a - b) AS d FROM stream", "SELECT id, upper(s) AS us, abs(a - b) AS d FROM stream WHERE a >= 0", "float"},
 	{"analytic", "SELECT id, lag(a) AS la, acc_sum(a) OVER (PARTITION BY p) AS s FROM stream", "SELECT id, lag(a) AS la, acc_sum(a) OVER (PARTITION BY p) AS s FROM stream", "int"},
 	{"where_only", "SELECT id, a FROM stream WHERE a + b > 4", "SELECT id, b FROM stream WHERE a + b > 4", "string"},
+	// near twins: different queries whose expression texts differ only in letter case or spacing
+	// (process-wide caches keyed by a normalised form of the text would confuse them)
+	{"near_literal_case", "SELECT id, concat(s, '-Alert') AS t FROM stream", "SELECT id, concat(s, '-alert') AS t FROM stream", "int"},
+	{"near_column_case", "SELECT id, upper(Site) AS u, a + B AS x FROM stream", "SELECT id, upper(site) AS u, a + b AS x FROM stream", "int"},
+	{"near_like_case", "SELECT id FROM stream WHERE s LIKE 'A%' OR Site LIKE '%1'", "SELECT id FROM stream WHERE s LIKE 'a%' OR site LIKE '%1'", "int"},
+	{"near_spacing", "SELECT id, concat(s, '- x') AS t FROM stream WHERE a+b > 3", "SELECT id, concat(s, '-  x') AS t FROM stream WHERE a + b > 3", "int"},
+	{"near_case_expr", "SELECT id, CASE WHEN s = 'ab' THEN 'Hi' ELSE 'Lo' END AS lvl FROM stream", "SELECT id, CASE WHEN s = 'Ab' THEN 'hi' ELSE 'lo' END AS lvl FROM stream", "int"},
+	{"near_group_key", "SELECT upper(Site) AS k, count(*) AS c FROM stream GROUP BY upper(Site), CountingWindow(2)", "SELECT upper(site) AS k, count(*) AS c FROM stream GROUP BY upper(site), CountingWindow(2)", "int"},
 }
 
 // genC20Registry: instance B uses a custom function that its client unregisters and registers
@@ -158,7 +166,8 @@ func genC20Paired(rng *simrt.Rand, tier string) *Case {
 	n := 5 + rng.Intn(12)
 	mk := func(i int, types string) Row {
 		a, b := rng.Intn(6), rng.Intn(6)
-		row := Row{"id": fmt.Sprintf("r%03d", i), "p": []any{"x", "y"}[rng.Intn(2)], "s": []string{"ab", "Cd"}[rng.Intn(2)]}
+		row := Row{"id": fmt.Sprintf("r%03d", i), "p": []any{"x", "y"}[rng.Intn(2)], "s": []string{"ab", "Cd", "Ab", "abc"}[rng.Intn(4)]}
+		row["Site"], row["site"], row["B"] = fmt.Sprintf("up%d", rng.Intn(3)), fmt.Sprintf("lo%d", rng.Intn(3)), 10+rng.Intn(5)
 		switch types {
 		case "float":
 			row["a"], row["b"] = float64(a)+0.5, float64(b)+0.25
@@ -171,8 +180,12 @@ func genC20Paired(rng *simrt.Rand, tier string) *Case {
 	}
 	var opsA, opsB []Op
 	for i := 0; i < n; i++ {
-		opsA = append(opsA, Op{K: "emitsync", I: 0, Row: mk(i, "int"), Tag: fmt.Sprintf("r%03d", i)})
-		opsB = append(opsB, Op{K: "emitsync", I: 1, Row: mk(i, kind.TypesB), Tag: fmt.Sprintf("r%03d", i)})
+		k := "emitsync"
+		if strings.Contains(kind.SQLa, "Window(") {
+			k = "emit" // aggregation queries only take Emit; their sinks carry the output
+		}
+		opsA = append(opsA, Op{K: k, I: 0, Row: mk(i, "int"), Tag: fmt.Sprintf("r%03d", i)})
+		opsB = append(opsB, Op{K: k, I: 1, Row: mk(i, kind.TypesB), Tag: fmt.Sprintf("r%03d", i)})
 	}
 	c.Insts = []InstSpec{{SQL: kind.SQLa, Sinks: []SinkSpec{{Mode: "sync"}}}, {SQL: kind.SQLb, Sinks: []SinkSpec{{Mode: "sync"}}}}
 	c.Clients = [][]Op{opsA, opsB}
@@ -324,6 +337,17 @@ func c20Outputs(e *Env, inst int) []string {
 			out = append(out, fmt.Sprintf("%s=>%s|%s", rec.Op.Tag, canon(rec.Out), rec.Err))
 		}
 	}
+	for _, d := range e.Insts[inst].Deliveries { // window path: what the sinks received
+		for _, r := range d.Rows {
+			rr := map[string]any{}
+			for k, v := range r {
+				if k != "window_id" { // window bounds on the clock: the arrival time is the schedule's, not the query's
+					rr[k] = v
+				}
+			}
+			out = append(out, "sink=>"+canon(rr))
+		}
+	}
 	sort.Strings(out)
 	return out
 }
@@ -340,6 +364,10 @@ func runC20Paired(e *Env) {
 		} else {
 			e.Violate("C20/client-stuck", "paired", "clients did not finish: %v", err)
 		}
+		return
+	}
+	if err := e.Settle(time.Duration(e.C.Settle)); err != nil {
+		e.R.Discard = "settle: " + err.Error()
 		return
 	}
 	e.R.Summary = map[string]any{"kind": e.C.xStr("kind")}
